@@ -13,13 +13,13 @@ PLAIN = ["a", "bb", "ccc", "dddd", "eeeee", "word", "Then", "it."]
 SENT = ["Ends.", "Really?", "Yes!", "(so.)", 'said."']
 # words that look like block syntax (only those the line-start escaping is meant to protect: see known findings
 # for the ones it does not)
-HAZ = ["-", "+", "*", "#", "##", ">", "1.", "2)", "10.", "-x", "#tag", "1.5", "|", "a|b"]
+HAZ = ["-", "+", "*", "#", "##", ">", "1.", "2)", "10.", "-x", "#tag", "1.5", "|", "a|b", "####", "######"]
 INLINE = ["*em*", "**strong**", "`code`", "`a b`", "[link](http://x.y)", "[l k](http://x.y/a_b \"T\")", "[w](http://x.y/t \"T  w\")", "![img](i.png)", "[t](http://r.ef/x)", "[t2](http://r.ef/x \"Other\")", "![i2](http://r.ef/x)",
           "<http://auto.link>", "http://bare.url/x", "www.example.com/p", "<https://e.com/o'neil>", "https://e.com/what's-new...x", "<b>", "</b>", "<span class=\"x y\">", "~~gone~~", "[^fn]", "[ref]",
           "`超时timeout`", "`a `", "` b`", "`> `", "[文档](http://x.y/部署v2/ \"标题T\")", "<span title=\"中文abc\">", "<http://x.y/部署v2>", "![img](i/图a.png)",
           "\\*lit\\*", "2023\\.", "7\\)", "\\# no", "\"quoted\"", "it's", "wait...", "a_b_c", "2*3*4", "&amp;", "x<y",
           # delimiter runs whose flanking depends on the neighbouring character (also a line break), intraword and nested emphasis
-          "``a`b``", "`a``b`", "`` `x ``", "`f(``t``, n)`", "ico\ue000n", "\ue001\ue002\ue003x", "[sp](<b c>)", "[pa](<x(y>)", "![im](<a b.png> \"t\")", "[bal](http://x.y/z_(w))",
+          "****x****", "**__y__**", "``a`b``", "`a``b`", "`` `x ``", "`f(``t``, n)`", "ico\ue000n", "\ue001\ue002\ue003x", "[sp](<b c>)", "[pa](<x(y>)", "![im](<a b.png> \"t\")", "[bal](http://x.y/z_(w))",
           "~(old)~", "~was it?~", "foo***bar***baz", "a*b*c", "***both***"]
 TAGS = ["{% t %}", "{% /t %}", "{{ v }}", "{# c #}", "<!-- h -->", "{% a x=\"1 2\" %}", "{% t %}{% /t %}", "<!-- a --><!-- /a -->",
         "{% p l=\"50% used\" %}", "{{ i % 2 }}", "{# 10 # 2 #}", "<!-- a - b -> c -->",
@@ -178,6 +178,8 @@ def document(rnd, with_tags=False, nblocks=None, hazards=True):
 
 # hand-written documents for interplays the random blocks rarely produce; appended to every sweep
 TARGETED = [
+    # tables with empty cells at the edges (header and body)
+    "| name | |\n|---|---|\n| a | b |\n\ntext\n", "| | v |\n|---|---|\n| a | |\n", "> | h | |\n> |---|---|\n> | | z |\n",
     # a paragraph line that starts with a three-backtick code span, before a tag-delimited block
     "```code``` text here\n\n{% field %}\n- a\n- b\n{% /field %}\n",
     # definitions whose destination is spelled with pointy brackets / escapes (kept in the source spelling), heading text that is
@@ -217,6 +219,9 @@ TARGETED_CODE = [
     ("intro\n\n  ```\nab\n   cd\n\n  ef\n g\n  ```\n\nafter\n", {"top_code": ["ab\n cd\n\nef\ng"], "top_info": []}),
     ("intro\n\n   ~~~sh\n#!/bin/sh\n\n   echo hi\n  x\n   ~~~\n", {"top_code": ["#!/bin/sh\n\necho hi\nx"], "top_info": ["sh"]}),
     ("intro\n\n ```\n\n  a\n\n\n b\n ```\n", {"top_code": ["\n a\n\n\nb"], "top_info": []}),
+    # an indented code block whose lines are all indented further: only the four structural columns go
+    ("intro\n\n        deep line\n          deeper\n\nafter\n", {"top_code": ["    deep line\n      deeper"], "top_info": []}),
+    ("# Head\n\n    \tmake:\n    \t\tcc -o x\n\ntext\n", {"top_code": ["\tmake:\n\t\tcc -o x"], "top_info": []}),
     # a paragraph that STARTS with a code span delimited by three backticks is no fence (a backtick fence's info string
     # cannot hold a backtick): the document has no code block at all
     ("``` use `x` ``` shows the idea and goes on for a while.\n\nnext paragraph here\n", {"top_code": [], "top_info": [], "no_code": True}),
